@@ -17,7 +17,7 @@ import time
 ROOT = os.path.dirname(os.path.dirname(os.path.abspath(__file__)))
 sys.path.insert(0, ROOT)
 PY = os.path.join(ROOT, ".venv", "bin", "python")
-PLAIN_PY = "/venv/bin/python"
+PLAIN_PY = PY  # same interpreter, but engine.replay never imports crosshair or the plugin
 
 PROPS = {}
 
@@ -115,6 +115,12 @@ def process(pid, module, tier, o, findings_db):
         rec["counterexample"] = main["args"]
         rec["cex_message"] = (main.get("messages") or [{}])[0].get("message", "")[:600]
         rec["replay"] = {"path": path, "outcome": outcome, "observed": observed[:1500]}
+        if outcome == "fails" and o.whole_finding and o.whole_finding in findings_db:
+            # the whole obligation lies inside a listed known finding: reported as such, not as a violation
+            rec["status"] = "KNOWN-FINDING"
+            rec["known_findings"] = [{"id": o.whole_finding, "reproduced": True, "witness": main["args"], "observed": observed[:400]}]
+            events.append(("KNOWN-FINDING", o.whole_finding, findings_db[o.whole_finding]["what"]))
+            return rec, events
         if outcome == "fails":
             events.append(("VIOLATION", o.name, path))
         else:
@@ -179,7 +185,7 @@ def main(argv):
     if only:
         obls = [o for o in obls if only in o.name]
     from engine import hlib
-    findings_db = {k: v for k, v in hlib._load_findings().items() if v.get("property") == pid}
+    findings_db = {k: v for k, v in hlib._load_findings().items() if pid in v.get("properties", [])}
     results, events = [], []
     with cf.ThreadPoolExecutor(max_workers=jobs) as ex:
         futs = {ex.submit(process, pid, module, tier, o, findings_db): o for o in obls}
@@ -220,6 +226,9 @@ def main(argv):
     write_evidence(pid, tier, seed, mod, results, violations, known, wall)
     n = len(results)
     disc = sum(1 for r in results if r.get("status") == "CONFIRMED")
+    for r in results:
+        if r.get("status") == "CONFIRMED" and getattr(obls[order[r["name"]]], "whole_finding", None) in findings_db:
+            print("NOTE: obligation %s lies in listed finding %s but now satisfies the property" % (r["name"], obls[order[r["name"]]].whole_finding))
     print("%s %s: %d obligations, %d discharged, %d inconclusive, %d violations, %d known findings reproduced, %.1fs" % (
         pid, tier, n, disc, sum(1 for r in results if r.get("status") in ("UNKNOWN", "VACUOUS", "MODEL-MISMATCH", "ERROR")),
         len(violations), len(known), wall))
